@@ -369,10 +369,10 @@ func Driver(root string, p *Prop, tier string, seed int64) int {
 		os.MkdirAll(filepath.Join(root, "replays", p.ID), 0o755)
 		shown := map[string]int{}
 		for _, v := range unknown {
-			if shown[v.Signature] >= 3 {
+			if shown[v.Signature+"|"+v.Kind] >= 2 || len(shown) > 40 {
 				continue
 			}
-			shown[v.Signature]++
+			shown[v.Signature+"|"+v.Kind]++
 			b, _ := json.MarshalIndent(v, "", " ")
 			sum := sha256.Sum256(b)
 			path := filepath.Join(root, "replays", p.ID, hex.EncodeToString(sum[:6])+".json")
